@@ -108,8 +108,7 @@ func init() {
 		return []Value{scalarV(types.Typ[types.Int64], mkConv(timeNS(*r), i64))}
 	})
 	reg("(time.Time).Sub", "t-u in nanoseconds, saturating at the int64 range", func(ex *Exec, st *State, c *ast.CallExpr, r *Value, a []Value) []Value {
-		d := mkArith("sub", timeNS(*r), timeNS(a[0]))
-		return []Value{scalarV(ex.vc.durT, clampI64(d))}
+		return []Value{scalarV(ex.vc.durT, timeSubTerm(*r, a[0]))}
 	})
 	reg("(time.Time).Add", "t+d, normalised; seconds wrap like the internal int64", func(ex *Exec, st *State, c *ast.CallExpr, r *Value, a []Value) []Value {
 		return []Value{timeAddDur(r.T, *r, a[0].scalar())}
@@ -148,7 +147,26 @@ func init() {
 		d := r.scalar()
 		q := mkArith("div", d, mkInt(i64, nsPerSec))
 		m := mkArith("rem", d, mkInt(i64, nsPerSec))
-		return []Value{scalarV(types.Typ[types.Float64], mk("fadd", sortFP, mkConv(q, sortFP), mk("fdiv", sortFP, mkConv(m, sortFP), mkFP(1e9))))}
+		def := mk("fadd", sortFP, mkConv(q, sortFP), mk("fdiv", sortFP, mkConv(m, sortFP), mkFP(1e9)))
+		// the result is named; its definition and some of its consequences (solver hints, see selftest/model_lemmas) are facts
+		sv := freshVar("seconds", sortFP)
+		eq := mk("=", sortBool, sv, def)
+		defFacts[eq] = true
+		st.assume(eq)
+		z := mkInt(i64, 0)
+		fz := mkFP(0)
+		ex.note("hints for Duration.Seconds (consequences of its definition): sign agreement with d, |s - float64(d/1e9)| <= 1, |s| <= 9223372037")
+		// the hints follow from the definition whatever the path: they are stated under the definition, globally
+		hint := func(f *Term) { addGlobalFact(f) }
+		hint(mkImplies(mkCmp("le", z, d), mkCmp("le", fz, sv)))
+		hint(mkImplies(mkCmp("le", d, z), mkCmp("le", sv, fz)))
+		hint(mkImplies(mkCmp("lt", z, d), mkCmp("lt", fz, sv)))
+		hint(mkImplies(mkCmp("lt", d, z), mkCmp("lt", sv, fz)))
+		hint(mkCmp("le", sv, mk("fadd", sortFP, mkConv(q, sortFP), mkFP(1))))
+		hint(mkCmp("le", mk("fsub", sortFP, mkConv(q, sortFP), mkFP(1)), sv))
+		hint(mkCmp("le", sv, mkFP(9223372037)))
+		hint(mkCmp("le", mkFP(-9223372037), sv))
+		return []Value{scalarV(types.Typ[types.Float64], sv)}
 	})
 	for n, div := range map[string]int64{"Nanoseconds": 1, "Microseconds": 1000, "Milliseconds": 1000000} {
 		div := div
@@ -216,7 +234,17 @@ func init() {
 		return []Value{scalarV(types.Typ[types.Float64], mk("fsqrt", sortFP, a[0].scalar()))}
 	})
 	reg("math.Ceil", "round toward +Inf", func(ex *Exec, st *State, c *ast.CallExpr, r *Value, a []Value) []Value {
-		return []Value{scalarV(types.Typ[types.Float64], mk("fceil", sortFP, a[0].scalar()))}
+		x := a[0].scalar()
+		cv := freshVar("ceil", sortFP)
+		eq := mk("=", sortBool, cv, mk("fceil", sortFP, x))
+		defFacts[eq] = true
+		st.assume(eq)
+		ex.note("hints for math.Ceil (consequences of its definition): x <= ceil(x) <= x+1 for |x| <= 2^52, ceil(x) >= 1 for x > 0, finite for finite x")
+		fin := func(t *Term) *Term { return mkAnd(mkNot(mk("fisnan", sortBool, t)), mkNot(mk("fisinf", sortBool, t))) }
+		addGlobalFact(mkImplies(fin(x), mkAnd(fin(cv), mkCmp("le", x, cv))))
+		addGlobalFact(mkImplies(mkAnd(mkCmp("le", mkFP(-4503599627370496), x), mkCmp("le", x, mkFP(4503599627370496))), mkCmp("le", cv, mk("fadd", sortFP, x, mkFP(1)))))
+		addGlobalFact(mkImplies(mkCmp("lt", mkFP(0), x), mkCmp("le", mkFP(1), cv)))
+		return []Value{scalarV(types.Typ[types.Float64], cv)}
 	})
 	reg("math.Abs", "IEEE-754 abs", func(ex *Exec, st *State, c *ast.CallExpr, r *Value, a []Value) []Value {
 		return []Value{scalarV(types.Typ[types.Float64], mk("fabs", sortFP, a[0].scalar()))}
@@ -224,7 +252,7 @@ func init() {
 	reg("math.Pow", "uninterpreted; for 0 < x <= 1 and y >= 0 the result is in [0,1]", func(ex *Exec, st *State, c *ast.CallExpr, r *Value, a []Value) []Value {
 		x, y := a[0].scalar(), a[1].scalar()
 		res := mkApp("math.Pow", sortFP, x, y)
-		st.assume(mkImplies(mkAnd(mkCmp("lt", mkFP(0), x), mkCmp("le", x, mkFP(1)), mkCmp("le", mkFP(0), y)),
+		addGlobalFact(mkImplies(mkAnd(mkCmp("lt", mkFP(0), x), mkCmp("le", x, mkFP(1)), mkCmp("le", mkFP(0), y)),
 			mkAnd(mkCmp("le", mkFP(0), res), mkCmp("le", res, mkFP(1)))))
 		return []Value{scalarV(types.Typ[types.Float64], res)}
 	})
@@ -571,4 +599,58 @@ func bytesEqualTerm(st *State, x, y Value) *Term {
 		mkEq(mkSelect(ax, idxAdd(x.L[".off"], j)), mkSelect(ay, idxAdd(y.L[".off"], j))))
 	st.assume(mkEq(res, mkAnd(mkEq(x.L[".len"], y.L[".len"]), mkQuant("forall", []*Term{j}, body))))
 	return res
+}
+
+// timeSubTerm: t.Sub(u) as one operator with an exact printing in both integer encodings.
+func timeSubTerm(t, u Value) *Term {
+	ts, tn, us, un := t.L[".sec"], t.L[".nsec"], u.L[".sec"], u.L[".nsec"]
+	if ts.isConst() && tn.isConst() && us.isConst() && un.isConst() {
+		d := new(big.Int).Sub(ts.Val, us.Val)
+		d.Mul(d, big.NewInt(nsPerSec))
+		d.Add(d, new(big.Int).Sub(tn.Val, un.Val))
+		if d.Cmp(i64.lo()) < 0 {
+			d = i64.lo()
+		}
+		if d.Cmp(i64.hi()) > 0 {
+			d = i64.hi()
+		}
+		return mkIntBig(i64, d)
+	}
+	return mk("tsub", i64, ts, tn, us, un)
+}
+
+// globalFacts: assumptions about modelled external functions that hold on every path (they are added to every
+// query that mentions one of their symbols, never guarded by a path condition).
+var globalFacts []*Term
+var globalFactSeen = map[*Term]bool{}
+
+func addGlobalFact(f *Term) {
+	if f.isTrue() || globalFactSeen[f] {
+		return
+	}
+	globalFactSeen[f] = true
+	globalFacts = append(globalFacts, f)
+}
+
+func globalFactsFor(ts []*Term) []*Term {
+	if len(globalFacts) == 0 {
+		return nil
+	}
+	syms := map[string]bool{}
+	seen := map[*Term]bool{}
+	for _, t := range ts {
+		symbolsOf(t, syms, seen)
+	}
+	var out []*Term
+	for _, f := range globalFacts {
+		fs := map[string]bool{}
+		symbolsOf(f, fs, map[*Term]bool{})
+		for n := range fs {
+			if syms[n] {
+				out = append(out, f)
+				break
+			}
+		}
+	}
+	return out
 }
